@@ -1,6 +1,8 @@
 import JediModel.Proto
 import JediModel.Model.Call
 import JediModel.Model.DocLit
+import JediModel.Model.SigCache
+import JediModel.Gen.C11
 open Lean Proto JediModel.Call
 
 def optChars (j : Json) (k : String) : Option Str :=
@@ -92,6 +94,31 @@ def parseCArg (j : Json) : CArg :=
   | "kw" => .kw (chars j "n")
   | _ => .pos
 
+/-- a history of `cache_signatures` calls against the global dictionary: per request the answer
+(`fresh` numbers the Script that computed it), whether an entry was stored and under which text -/
+def sigCacheHistory (cfg : JediModel.SigCache.Cfg) (reqs : List Json) : List Json :=
+  let rec go (st : JediModel.SigCache.State Nat) : List Json → List Json
+    | [] => []
+    | j :: rest =>
+      let pos := fun (k : String) => match nats j k with | [a, b] => (a, b) | _ => (0, 0)
+      let rq : JediModel.SigCache.Req Nat :=
+        { path := match j.getObjVal? "path" with | .ok (.str p) => some p | _ => none,
+          lines := (strs j "lines").map String.toList, bracket := pos "bracket", cursor := pos "cursor",
+          scriptAt := nat j "scriptAt", now := nat j "now", fresh := nat j "fresh" }
+      let st := JediModel.SigCache.newScript st rq.scriptAt
+      let (a, st') := JediModel.SigCache.call cfg st rq
+      let key := (JediModel.SigCache.whole rq).bind fun w => JediModel.SigCache.keyOf cfg st.nextObj rq w
+      let stored := match key with
+        | some k => (match JediModel.SigCache.lookup k st.dct with
+                     | some (e, _) => !(e > rq.now)
+                     | none => true)
+        | none => false
+      let text : Option (List Char) :=
+        if key.isSome then (JediModel.SigCache.whole rq).bind JediModel.SigCache.upToLastParen else none
+      jobj [("answer", jopt jnat a), ("stored", jbool stored), ("keyed", jbool key.isSome),
+            ("text", joptChars text), ("size", jnat st'.dct.length)] :: go st' rest
+  go {} reqs
+
 def handle (j : Json) : Json :=
   match str j "op" with
   | "case" =>
@@ -163,6 +190,12 @@ def handle (j : Json) : Json :=
           ("docstring", jbool (JediModel.DocLit.pyIsDocstring p)),
           ("evald", jstr (match JediModel.DocLit.pyEvald p with
                           | .str => "str" | .bytes => "bytes" | .notLiteral => "notLiteral"))]
+  | "sigcache" =>
+    -- configuration of the source (Gen) unless the request names one
+    let textKey := match j.getObjVal? "textKey" with
+      | .ok (.bool b) => b
+      | _ => JediModel.Gen.C11.sigKeyMid == "matched-text"
+    jarr (sigCacheHistory { textKey := textKey, validity := JediModel.Gen.C11.sigValidityMs } (arr j "reqs"))
   | op => jobj [("error", jstr ("unknown op " ++ op))]
 
 def main : IO Unit := Proto.run handle
